@@ -30,21 +30,56 @@ pub fn pipe() -> Result<(File, File)> {
     Ok(unsafe { (File::from_raw_fd(fds[0]), File::from_raw_fd(fds[1])) })
 }
 
-/// Like `pipe()`, but neither descriptor is 0, 1 or 2.
-///
-/// A process that runs with some of its standard descriptors closed gets
-/// those numbers for a new pipe.  The child sets up its standard streams
-/// with `dup2()`, which would replace such a descriptor before it is used.
-pub fn pipe_above_std() -> Result<(File, File)> {
-    fn above_std(f: File) -> Result<File> {
-        if f.as_raw_fd() > 2 {
-            return Ok(f);
-        }
-        let fd = fcntl(f.as_raw_fd(), libc::F_DUPFD, Some(3))?;
-        Ok(unsafe { File::from_raw_fd(fd) })
+// Move a descriptor numbered 0, 1 or 2 above that range.
+//
+// A process that runs with some of its standard descriptors closed gets
+// those numbers for a new pipe.  The child sets up its standard streams
+// with `dup2()`, which would replace such a descriptor before it is used.
+fn above_std(f: File, dup_cmd: c_int) -> Result<File> {
+    if f.as_raw_fd() > 2 {
+        return Ok(f);
     }
+    let fd = fcntl(f.as_raw_fd(), dup_cmd, Some(3))?;
+    Ok(unsafe { File::from_raw_fd(fd) })
+}
+
+/// Like `pipe()`, but neither descriptor is 0, 1 or 2.
+pub fn pipe_above_std() -> Result<(File, File)> {
     let (read, write) = pipe()?;
-    Ok((above_std(read)?, above_std(write)?))
+    Ok((
+        above_std(read, libc::F_DUPFD)?,
+        above_std(write, libc::F_DUPFD)?,
+    ))
+}
+
+/// Create a pipe for the library's own use: numbered above 2 and with both
+/// ends close-on-exec from the start.
+///
+/// A pipe created with `pipe()` and marked close-on-exec afterwards is, in
+/// between, inherited by a child that another thread happens to fork.  The
+/// end meant for our child still reaches it: `dup2()` onto a standard
+/// stream does not carry the flag over.
+pub fn pipe_cloexec() -> Result<(File, File)> {
+    #[cfg(any(target_os = "linux", target_os = "android"))]
+    let (read, write) = {
+        let mut fds = [0 as c_int; 2];
+        check_err(unsafe { libc::pipe2(fds.as_mut_ptr(), libc::O_CLOEXEC) })?;
+        unsafe { (File::from_raw_fd(fds[0]), File::from_raw_fd(fds[1])) }
+    };
+    // Elsewhere the best we can do is to set the flag right away.
+    #[cfg(not(any(target_os = "linux", target_os = "android")))]
+    let (read, write) = {
+        let (read, write) = pipe()?;
+        for f in [&read, &write].iter() {
+            let old = fcntl(f.as_raw_fd(), F_GETFD, None)?;
+            fcntl(f.as_raw_fd(), F_SETFD, Some(old | FD_CLOEXEC))?;
+        }
+        (read, write)
+    };
+    Ok((
+        above_std(read, libc::F_DUPFD_CLOEXEC)?,
+        above_std(write, libc::F_DUPFD_CLOEXEC)?,
+    ))
 }
 
 // marked unsafe because the child must not allocate before exec-ing
